@@ -51,6 +51,31 @@ def v2_valid_entropy(rng, bits, t, lang):
     return None, None
 
 
+def v2_prefix_phrases(rng, words, wanted, n_words=12, budget=60000):
+    """random phrases over `words` whose HMAC-SHA512('Seed version', phrase) hex digest starts with each prefix of `wanted` (searched with hmac/hashlib)"""
+    import hmac, hashlib
+    out = {}
+    index = {w: i for i, w in enumerate(words)}
+    for _ in range(budget):
+        ws_ = [rng.choice(words) for _ in range(n_words)]
+        ph = " ".join(ws_)
+        # Electrum refuses sentences that are also valid BIP-39 (1 in 16 random ones): keep those out, the prefix rule is what is probed
+        v_ = 0
+        for w in ws_:
+            v_ = (v_ << 11) | index[w]
+        cs_ = n_words * 11 // 33
+        ent_ = (v_ >> cs_).to_bytes((n_words * 11 - cs_) // 8, "big")
+        if hashlib.sha256(ent_).digest()[0] >> (8 - cs_) == v_ & ((1 << cs_) - 1):
+            continue
+        hx_ = hmac.new(b"Seed version", ph.encode("utf-8"), hashlib.sha512).hexdigest()
+        for w in wanted:
+            if w not in out and hx_.startswith(w):
+                out[w] = ph
+        if len(out) == len(wanted):
+            break
+    return out
+
+
 def gen(rng, tier):
     # ---- Monero
     for lang in MONERO_LANGS:
@@ -165,6 +190,13 @@ def gen(rng, tier):
         ws[rng.randrange(len(ws))] = "abandon"
         yield Case("ev2dec", [lang, "any", tx(" ".join(ws)), oracle_for(" ".join(ws))], "neg-v2")
         yield Case("ev2dec", [lang, "any", tx(" ".join(ws[:-1])), oracle_for(" ".join(ws[:-1]))], "neg-v2")
+    # the version prefix, digit by digit: 01 / 100 / 101 / 102 are the four types, every neighbour (103…10f, 00x, 02x, 11x) is none
+    engw = [eng.GetWordAtIdx(i) for i in range(2048)]
+    wanted = ["01", "100", "101", "102", "103", "104", "107", "108", "10f", "00", "02", "11", "1f"] if tier == "quick" else \
+        ["01", "100", "101", "102"] + ["10%x" % d for d in range(3, 16)] + ["00", "02", "03", "11", "12", "1f", "f1"]
+    for pre, ph in sorted(v2_prefix_phrases(rng, engw, wanted).items()):
+        yield Case("ev2dec", ["ENGLISH", "any", tx(ph), oracle_for(ph)], "v2-prefix-" + ("type" if pre in ("01", "100", "101", "102") else "none"))
+        yield Case("ev2dec", ["auto", "any", tx(ph), oracle_for(ph)], "v2-prefix-" + ("type" if pre in ("01", "100", "101", "102") else "none"))
 
 
 def relations(rng, tier, rpt):
